@@ -17,7 +17,9 @@ ASSUMPTIONS = [
     "weights are ints or dyadic rationals (float sums exact), so objective equality is exact",
     "prim receives the undirected graph as a symmetric adjacency dict that has every node as a key",
     "n_nodes >= 1 (documented ValueError otherwise is not generated)",
-    "on a connected graph any OPTIMAL/FEASIBLE status is accepted (the statement fixes the status only for the disconnected cases)",
+    "FEASIBLE is the flag that tells a spanning forest from a spanning tree (statement: 'a minimum spanning forest flagged "
+    "FEASIBLE'), so a complete minimum spanning tree of a connected graph has to come back OPTIMAL, with or without "
+    "allow_forest (a tree flagged FEASIBLE could not be told from a forest)",
 ]
 QUICK_SCALE = 2.5  # quick-tier multiplier (idle 16-core timing: ~10 s at scale 1)
 STRATA = [
@@ -221,8 +223,9 @@ def _judge(obs, who, res, n, edges, ref, forest_allowed, back=None):
     if not connected:
         if st != "FEASIBLE":
             obs.violate("mst.forest-status", f"{who}: disconnected graph with allow_forest must be flagged FEASIBLE, got {st}")
-    elif st not in ("OPTIMAL", "FEASIBLE"):
-        obs.violate("mst.status", f"{who}: connected graph, status {st}")
+    elif st != "OPTIMAL":
+        obs.violate("mst.tree-status", f"{who}: connected graph (a complete minimum spanning tree exists), status {st}; "
+                    "FEASIBLE is the flag of a forest on a disconnected graph")
     tree = list(res.solution)
     if back is not None:
         mapped = []
